@@ -170,6 +170,66 @@ func encodeAny(pk *packets.Packet, buf *bytes.Buffer) error {
 	return packets.ErrNoValidPacketAvailable
 }
 
+func normProps(p packets.Properties) packets.Properties {
+	if !p.PayloadFormatFlag {
+		p.PayloadFormat = 0
+	}
+	p.PayloadFormatFlag = false
+	if !p.SessionExpiryIntervalFlag {
+		p.SessionExpiryInterval = 0
+	}
+	p.SessionExpiryIntervalFlag = false
+	if !p.RequestProblemInfoFlag {
+		p.RequestProblemInfo = 1
+	}
+	p.RequestProblemInfoFlag = false
+	if !(p.TopicAliasFlag && p.TopicAlias > 0) {
+		p.TopicAlias = 0
+	}
+	p.TopicAliasFlag = false
+	if !(p.MaximumQosFlag && p.MaximumQos < 2) {
+		p.MaximumQos = 2
+	}
+	p.MaximumQosFlag = false
+	if !p.RetainAvailableFlag {
+		p.RetainAvailable = 1
+	}
+	p.RetainAvailableFlag = false
+	if !p.WildcardSubAvailableFlag {
+		p.WildcardSubAvailable = 1
+	}
+	p.WildcardSubAvailableFlag = false
+	if !p.SubIDAvailableFlag {
+		p.SubIDAvailable = 1
+	}
+	p.SubIDAvailableFlag = false
+	if !p.SharedSubAvailableFlag {
+		p.SharedSubAvailable = 1
+	}
+	p.SharedSubAvailableFlag = false
+	var si []int
+	for _, v := range p.SubscriptionIdentifier {
+		if v > 0 {
+			si = append(si, v)
+		}
+	}
+	p.SubscriptionIdentifier = si
+	if strings.ContainsAny(p.ResponseTopic, "+#") {
+		p.ResponseTopic = ""
+	}
+	return p
+}
+
+func renderDecN(pk packets.Packet, err error) string {
+	if err != nil {
+		return "err " + errName(err)
+	}
+	pk.ReservedBit = 0
+	pk.Properties = normProps(pk.Properties)
+	pk.Connect.WillProperties = normProps(pk.Connect.WillProperties)
+	return "ok " + renderPacket(&pk)
+}
+
 func renderDec(pk packets.Packet, err error) string {
 	if err != nil {
 		return "err " + errName(err)
@@ -204,7 +264,8 @@ func init() {
 		}
 		rest := r.Bytes()
 		pk2, err2 := decodeWire(pk.ProtocolVersion, bs[0], n, rest)
-		return fmt.Sprintf("E=%s D=%s L=%s", hx(bs), renderDec(pk2, err2), b2s(n == len(rest)))
+		pk.Mods = packets.Mods{}
+		return fmt.Sprintf("E=%s L=%s Q=%s D=%s", hx(bs), b2s(n == len(rest)), b2s(renderDecN(pk2, err2) == renderDecN(pk, nil)), renderDec(pk2, err2))
 	}
 
 	rstr := func(r *rand.Rand) string {
